@@ -37,6 +37,7 @@ def blocks(tier, seed):
         for m0 in range(0, shape[0] // 4 + 1):
             out.append({"kind": "waves", "shape": list(shape), "seedv": seed % 3, "m0": m0})
     out.append({"kind": "droplets", "seedv": seed % 3})
+    out.append({"kind": "nonconvex"})
     out.append({"kind": "small", "shape": [6]})
     out.append({"kind": "small", "shape": [2, 3]})
     return out
@@ -73,6 +74,9 @@ def cases(block):
                                   ((32,), [[4.3], [12.1], [20.4], [27.9]], 1.6), ((10, 10, 10), [[2.6, 2.7, 2.4], [7.3, 7.1, 7.6]], 2.1)):
             for extra in (0.0, 0.13 * (1 + block["seedv"])):
                 yield {"kind": "droplets", "shape": list(shape), "centres": [[c + extra for c in cc] for cc in centres], "R": R}
+    elif block["kind"] == "nonconvex":
+        for name in ("horseshoe", "ring+dot", "comb"):
+            yield {"kind": "nonconvex", "shape": [14, 12], "name": name}
     else:
         shape = block["shape"]
         n = int(np.prod(shape))
@@ -93,6 +97,20 @@ def build(case):
         for c in case["centres"]:
             d2 = sum((((x - ci + n / 2) % n) - n / 2) ** 2 for x, ci, n in zip(idx, c, shape))
             f = np.maximum(f, 0.5 + 0.5 * np.tanh((case["R"] - np.sqrt(d2)) / 1.0))
+        return f
+    if case["kind"] == "nonconvex":
+        f = np.zeros(shape)
+        if case["name"] == "horseshoe":
+            f[2:9, 2:4] = f[2:9, 7:9] = 1
+            f[7:9, 2:9] = 1
+        elif case["name"] == "ring+dot":
+            f[1:8, 1:8] = 1
+            f[3:6, 3:6] = 0
+            f[10:12, 9:11] = 1
+        else:
+            f[1:3, 1:10] = 1
+            f[3:8, 1:3] = f[3:8, 4:6] = f[3:8, 8:10] = 1
+            f[10:13, 3:5] = 1
         return f
     return np.array(case["bits"], float).reshape(shape)
 
@@ -118,6 +136,15 @@ def run_case(case, ctx):
     methods = ["structure_factor_mean", "structure_factor_maximum"]
     if case["kind"] in ("droplets",):
         methods.append("droplet_detection")
+    if case["kind"] == "nonconvex":
+        # droplet counting under EVERY cyclic translation of a non-convex pattern
+        base = ls(f, 1.0, "droplet_detection")
+        t = dict(tags, method="droplet_detection")
+        for sh in itertools.product(*[range(n) for n in shape]):
+            val = ls(np.roll(f, sh, axis=(0, 1)), 1.0, "droplet_detection")
+            ctx.check("C17.shift", (not isinstance(val, str)) and (not isinstance(base, str)) and abs(val - base) <= 1e-9 * abs(base), {"shift": sh, "length": val, "base": base}, t)
+        ctx.count("non-convex-patterns")
+        methods = ["structure_factor_mean"]
     # knife-edge screen for the peak-based method: the largest power must belong to one wave number only
     from droplets import get_structure_factor
 
